@@ -28,7 +28,9 @@ def gen(rnd):
     D["nb"] = rnd.randint(1, 4)
     D["default"] = rnd.random() < 0.5
     D["in_method"] = rnd.random() < 0.5  # condition inside a method called by one transaction
-    D["cond_call"] = rnd.choice([None, "if", "enable"]) if D["in_method"] else None
+    # how the host method is called: plainly, under If, with enable_call, or from TWO mutually exclusive call sites of the one transaction
+    # (If/Else: always called by one of them; If/Elif: called iff one of two conditions holds)
+    D["cond_call"] = rnd.choice([None, "if", "enable", "ifelse", "ifelif"]) if D["in_method"] else None
     # an intermediate method between the transaction and the host: the *outer* call is conditional, the call of the host is plain
     D["chain"] = D["in_method"] and rnd.random() < 0.4
     D["share"] = rnd.random() < 0.5  # outside transactions sharing callees
@@ -59,7 +61,7 @@ class Emit(Elaboratable):
         self.D = D
         self.cond = [Signal(name=f"c{i}") for i in range(D["nb"])]
         self.mr = [Signal(name=f"mr{i}") for i in range(D["nm"])]
-        self.pr, self.tr, self.cc = Signal(name="pr"), Signal(name="tr"), Signal(name="cc")
+        self.pr, self.tr, self.cc, self.cc2 = Signal(name="pr"), Signal(name="tr"), Signal(name="cc"), Signal(name="cc2")
         self.orr = [Signal(name=f"or{i}") for i in range(len(D["outside"]))]
         self.bw = [Signal(name=f"bw{i}") for i in range(len(D["br"]))]
         self.pw = Signal(name="pw")
@@ -144,6 +146,16 @@ class Emit(Elaboratable):
                         target(m)
                 elif D["cond_call"] == "enable":
                     target(m, enable_call=self.cc)
+                elif D["cond_call"] == "ifelse":
+                    with m.If(self.cc):
+                        target(m)
+                    with m.Else():
+                        target(m)
+                elif D["cond_call"] == "ifelif":
+                    with m.If(self.cc):
+                        target(m)
+                    with m.Elif(self.cc2):
+                        target(m)
                 else:
                     target(m)
             self.P = host
@@ -201,7 +213,7 @@ def run_one(rec, rnd, idx, max_cycles):
                 nested_bodies.append(b)
         by_name = {b.name: b for b in branch_bodies}
         va_in = [e.va[j] for j in range(D["nm"]) if V[j]]
-        inputs = e.cond + e.cond2 + e.mr + va_in + [e.pr, e.tr, e.cc] + e.orr
+        inputs = e.cond + e.cond2 + e.mr + va_in + [e.pr, e.tr, e.cc] + ([e.cc2] if D["cond_call"] == "ifelif" else []) + e.orr
         n = len(inputs)
         nb = D["nb"]
         tag = (f"nb{nb}d{int(D['default'])}nbk{int(D['nonblocking'])}p{int(D['priority'])}m{int(D['in_method'])}{D['cond_call']}ch{int(D['chain'])}s{int(D['share'])}"
@@ -239,7 +251,7 @@ def run_one(rec, rnd, idx, max_cycles):
                 pw, prun = ctx.get(e.pw), ctx.get(e.P.run)
                 oruns = [ctx.get(o.run) for o in e.outs]
                 rec.count("cycles")
-                det = {"inputs": {"cond": c, "nested_cond": c2, "method_ready": mr, "argument_valid": va, "pr": ctx.get(e.pr), "tr": ctx.get(e.tr), "cc": ctx.get(e.cc)},
+                det = {"inputs": {"cond": c, "nested_cond": c2, "method_ready": mr, "argument_valid": va, "pr": ctx.get(e.pr), "tr": ctx.get(e.tr), "cc": ctx.get(e.cc), "cc2": ctx.get(e.cc2)},
                        "branch_witness": bw, "nested_branch_witness": bw2, "body_run": int(prun), "outside_runs": oruns}
                 if bool(pw) != bool(prun):
                     rec.harness_error("body witness differs from body run")
@@ -250,6 +262,10 @@ def run_one(rec, rnd, idx, max_cycles):
                     adm2 = [bool(condv2[k]) and all(eff[j] for j in N["br"][k]) for k in range(len(N["br"]))]
                     nested_ok = any(adm2) or (N["nonblocking"] and not N["default"] and not any(c2))
                 adm = [bool(condv[i]) and all(eff[j] for j in D["br"][i]) and (nested_ok if N and N["branch"] == i else True) for i in range(len(D["br"]))]
+
+                def host_called():
+                    cc, cc2 = bool(ctx.get(e.cc)), bool(ctx.get(e.cc2))
+                    return {None: True, "if": cc, "enable": cc, "ifelse": True, "ifelif": cc or cc2}[D["cond_call"]]
 
                 def excused(skipped_callees):
                     return any(orun and set(calls) & skipped_callees for orun, calls in zip(oruns, D["outside"]))
@@ -310,7 +326,7 @@ def run_one(rec, rnd, idx, max_cycles):
                     # no outside transaction asks to run: nothing can oppose the enclosing body, so it (and its caller) runs iff it is fully enabled
                     can = bool(ctx.get(e.pr)) and all(eff[j] for j in D["outer_calls"]) and (any(adm) or (D["nonblocking"] and not D["default"] and not any(c)))
                     if D["in_method"]:
-                        called = bool(ctx.get(e.cc)) or not D["cond_call"]
+                        called = host_called()
                         exp_host = bool(ctx.get(e.tr)) and called and can
                         crun = bool(ctx.get(e.caller.run))
                         if called:
@@ -330,8 +346,10 @@ def run_one(rec, rnd, idx, max_cycles):
                 if prun and not any(bw):
                     rec.count("body_ran_without_branch")
                     rec.check("C12:body_without_branch_only_if_nonblocking_and_no_condition_holds", D["nonblocking"] and not D["default"] and not any(c), case=case, detail=det)
-                if D["cond_call"] and not ctx.get(e.cc):
+                if D["cond_call"] and not host_called():
                     rec.count("cycles_with_host_not_called")
+                if D["cond_call"] in ("ifelse", "ifelif") and host_called():
+                    rec.count("cycles_with_host_called_from_one_of_two_exclusive_sites")
                 if sum(c) >= 2:
                     rec.count("cycles_with_two_or_more_conditions_true")
                 if any(condv[i] and not all(eff[j] for j in D["br"][i]) for i in range(len(D["br"]))):
@@ -369,8 +387,8 @@ def run_shard(spec, rec):
 
 
 RULE = ("generated condition() blocks: blocking/nonblocking x priority x with/without default, 1-4 branches with overlapping conditions, callees shared across "
-        "branches and with 1-2 outside transactions, placed in a transaction or in a host method called plainly / under If / with enable_call, directly or through an "
-        "intermediate method; 30% of the callees take an argument checked by validate_arguments (argument bit = input); 35% of the designs nest a second condition() "
+        "branches and with 1-2 outside transactions, placed in a transaction or in a host method called plainly / under If / with enable_call / from two exclusive call sites of one transaction "
+        "(If-Else, If-Elif), directly or through an intermediate method; 30% of the callees take an argument checked by validate_arguments (argument bit = input); 35% of the designs nest a second condition() "
         "(1-2 branches, own flags) inside one branch, whose own callee list is empty in half of these; the netlist of every design is first checked for combinational "
         "cycles (Amaranth's build_netlist); all input valuations when <= 10 input bits, biased random otherwise; oracle: clauses (1)-(5) of DESIGN.md C12 on both levels "
         "(ready = ready and argument accepted), nested branch bodies run only with their enclosing body, the C04 consistency condition (a merged call without its enable "
@@ -382,5 +400,5 @@ ASSUMPTIONS = ["with shared callees a skipped earlier admissible branch is excus
 MINIMA = {"quick": {"cycles": 20000, "cycles_with_two_or_more_conditions_true": 3000, "cycles_with_true_condition_but_unready_callee": 3000, "body_ran_without_branch": 200,
                     "priority_branch_runs": 1000, "branch_index_0_ran": 1000, "branch_index_3_ran": 20, "nested_branch_runs": 200, "designs_with_nested_condition": 20,
                     "branch_runs_calling_a_validated_method": 100, "cycles_with_true_condition_but_rejected_argument": 300, "unopposed_cycles": 5000,
-                    "cycles_with_host_not_called": 1000, "distinct": 300},
+                    "cycles_with_host_not_called": 1000, "cycles_with_host_called_from_one_of_two_exclusive_sites": 1000, "distinct": 300},
           "thorough": {"cycles": 2000000, "distinct": 2000}}
